@@ -28,7 +28,7 @@
 typedef std::vector<unsigned char> bytes;
 typedef std::map<std::string, std::string> kv;
 
-static FILE* OUT = stdout;
+static FILE* OUT = nullptr;
 
 static bytes unhex(const std::string& s) {
     bytes r;
@@ -225,6 +225,41 @@ static void do_btcc(const kv& m) {
     }
 }
 
+// ------------------------------------------------------------------------------------ transforms
+static std::string value_desc(Value& v) {
+    switch (v.type) {
+    case Value::T_INT: return "t=int v=" + std::to_string((long long)v.int64);
+    case Value::T_OPCODE: return strprintf("t=op v=%d", (int)v.opcode);
+    case Value::T_DATA: return "t=data v=" + hexitem(v.data);
+    default: return "t=str v=" + hexitem(bytes(v.str.begin(), v.str.end()));
+    }
+}
+static void do_inl(const kv& m) {
+    // expr=<hex of a token such as sha256(0x1234)>: the Value constructor (inline transform form)
+    std::string id = get(m, "id");
+    std::string expr = unhexstr(get(m, "expr"));
+    FILE* old = stdout;
+    char* buf = nullptr; size_t len = 0;
+    stdout = open_memstream(&buf, &len);
+    Value v(expr.c_str());
+    fflush(stdout); fclose(stdout); stdout = old;
+    fprintf(OUT, "R %s %s\n", id.c_str(), value_desc(v).c_str());
+    free(buf);
+}
+static void do_tf(const kv& m) {
+    // name=<hex> args=<hex,hex,...>: the `tf` command through the real fn_tf, stdout captured
+    std::string id = get(m, "id");
+    std::string line = unhexstr(get(m, "name"));
+    for (auto& t : split(get(m, "args"), ',')) line += " " + unhexstr(t);
+    FILE* old = stdout;
+    char* buf = nullptr; size_t len = 0;
+    stdout = open_memstream(&buf, &len);
+    int rv = fn_tf(line.c_str());
+    fflush(stdout); fclose(stdout); stdout = old;
+    fprintf(OUT, "R %s rv=%d out=%s\n", id.c_str(), rv, hexitem(bytes(buf, buf + len)).c_str());
+    free(buf);
+}
+
 // ------------------------------------------------------------------------------------ transactions
 static std::string tx_fields(const CTransaction& tx) {
     std::string s = strprintf("ver=%d lock=%u", tx.nVersion, tx.nLockTime);
@@ -276,10 +311,13 @@ static void run_case(const std::string& line) {
     else if (kind == "script") do_script(m);
     else if (kind == "btcc") do_btcc(m);
     else if (kind == "tx") do_tx(m);
+    else if (kind == "inl") do_inl(m);
+    else if (kind == "tf") do_tf(m);
     else fprintf(OUT, "R %s unknownkind\n", get(m, "id").c_str());
 }
 
 int main(int argc, char** argv) {
+    OUT = fdopen(dup(1), "w");   // the protocol stream stays valid while stdout is temporarily redirected
     btc_logf = btc_logf_dummy;
     std::vector<std::string> lines;
     {
@@ -290,14 +328,14 @@ int main(int argc, char** argv) {
         while (std::getline(*in, l)) if (!l.empty() && l[0] != '#') lines.push_back(l);
     }
     bool nofork = getenv("VH_NOFORK") != nullptr;
-    if (nofork) { for (auto& l : lines) run_case(l); return 0; }
+    if (nofork) { for (auto& l : lines) run_case(l); fflush(OUT); return 0; }
     // crash isolation: a child works through the list and reports progress on a pipe; if it dies the
     // parent attributes the death to the case in progress and restarts after it.
     size_t next = 0;
     while (next < lines.size()) {
         int pfd[2];
         if (pipe(pfd)) return 2;
-        fflush(stdout);
+        fflush(stdout); fflush(OUT);
         pid_t pid = fork();
         if (pid == 0) {
             close(pfd[0]);
@@ -306,7 +344,7 @@ int main(int argc, char** argv) {
                 uint32_t v = (uint32_t)i;
                 if (write(pfd[1], &v, 4) != 4) _exit(3);
                 run_case(lines[i]);
-                fflush(stdout);
+                fflush(OUT); fflush(stdout);
             }
             uint32_t v = 0xffffffffu;
             if (write(pfd[1], &v, 4) != 4) _exit(3);
@@ -320,7 +358,7 @@ int main(int argc, char** argv) {
         int status = 0;
         waitpid(pid, &status, 0);
         if (finished) break;
-        if (last == 0xfffffffeu) { fprintf(stdout, "R ? HARNESSFAIL\n"); return 2; }
+        if (last == 0xfffffffeu) { fprintf(OUT, "R ? HARNESSFAIL\n"); fflush(OUT); return 2; }
         // the child died inside case `last`
         std::string l = lines[last];
         std::string id = "?";
@@ -328,9 +366,11 @@ int main(int argc, char** argv) {
         if (p != std::string::npos) { size_t e = l.find(' ', p); id = l.substr(p + 3, e == std::string::npos ? e : e - p - 3); }
         int sig = WIFSIGNALED(status) ? WTERMSIG(status) : 0;
         int code = WIFEXITED(status) ? WEXITSTATUS(status) : -1;
-        if (sig == 0 && code == 1) fprintf(stdout, "R %s exit1\n", id.c_str());   // the code under test called exit(1)
-        else fprintf(stdout, "R %s CRASH sig=%d exit=%d\n", id.c_str(), sig, code);
+        if (sig == 0 && code == 1) fprintf(OUT, "R %s exit1\n", id.c_str());   // the code under test called exit(1)
+        else fprintf(OUT, "R %s CRASH sig=%d exit=%d\n", id.c_str(), sig, code);
+        fflush(OUT);
         next = last + 1;
     }
+    fflush(OUT);
     return 0;
 }
